@@ -22,6 +22,7 @@ package h264writer
 import (
 	"bytes"
 	"fmt"
+	"os"
 	"runtime/debug"
 	"strings"
 	"sync"
@@ -664,6 +665,66 @@ func c35Eval(c *vkit.Check, cfg c35Cfg, opts []c35Opt) {
 
 // ---------------------------------------------------------------- the check
 
+// c35FileConstructors: the writers built with New(fileName) - two recordings into the SAME path, the second
+// shorter than the first: the file read back after the second recording holds exactly what a NewWith writer
+// produces for the same packets (a constructor that opens an existing file without truncating it leaves the tail
+// of the earlier recording behind the new one).
+func c35FileConstructors(t *testing.T, c *vkit.Check) {
+	for _, codec := range []string{"h264", "h265"} {
+		path := t.TempDir() + "/c35-recording." + codec
+		key, small := []byte{0x65, 0x88, 0x84, 0x00, 0x33, 0xff}, []byte{0x41, 0x9a, 0x9b}
+		if codec == "h265" {
+			key, small = []byte{0x26, 0x01, 0xaf, 0x08, 0x40, 0x33}, []byte{0x02, 0x01, 0x9a, 0x9b}
+		}
+		long := [][]byte{key, append(append([]byte{}, small...), bytes.Repeat([]byte{0x55}, 300)...), small, small}
+		short := [][]byte{key, small}
+		var want []byte
+		for si, session := range [][][]byte{long, short} {
+			c.Eval()
+			var ref bytes.Buffer
+			var write, refWrite func(*rtp.Packet) error
+			var closeFn func() error
+			if codec == "h264" {
+				w, err := New(path)
+				if err != nil {
+					vkit.Fatalf(t, "h264writer.New: %v", err)
+				}
+				r := NewWith(&ref)
+				write, refWrite, closeFn = w.WriteRTP, r.WriteRTP, w.Close
+			} else {
+				w, err := h265writer.New(path)
+				if err != nil {
+					vkit.Fatalf(t, "h265writer.New: %v", err)
+				}
+				r := h265writer.NewWith(&ref)
+				write, refWrite, closeFn = w.WriteRTP, r.WriteRTP, w.Close
+			}
+			for i, u := range session {
+				pk := &rtp.Packet{Header: rtp.Header{Version: 2, SequenceNumber: uint16(i)}, Payload: u} //nolint:gosec
+				if err := write(pk); err != nil {
+					vkit.Fatalf(t, "WriteRTP: %v", err)
+				}
+				_ = refWrite(&rtp.Packet{Header: pk.Header, Payload: append([]byte{}, u...)})
+			}
+			if err := closeFn(); err != nil {
+				vkit.Fatalf(t, "Close: %v", err)
+			}
+			want = ref.Bytes()
+			got, err := os.ReadFile(path)
+			if err != nil {
+				vkit.Fatalf(t, "read back: %v", err)
+			}
+			if !bytes.Equal(got, want) {
+				c.Violation(fmt.Sprintf("%s|file-constructor|recording=%d|file-differs-from-stream-output", codec, si+1),
+					fmt.Sprintf("%s: recording %d into the same path: the file holds %d bytes, a NewWith writer produces %d bytes for the same packets", codec, si+1, len(got), len(want)),
+					map[string]any{"codec": codec, "recording": si + 1})
+			} else {
+				c.Distinct(fmt.Sprintf("file-constructor|%s|recording=%d", codec, si+1))
+			}
+		}
+	}
+}
+
 func TestVerifC35(t *testing.T) {
 	debug.SetGCPercent(400)
 	c := vkit.New("C35", "exploration")
@@ -775,5 +836,6 @@ func TestVerifC35(t *testing.T) {
 	}
 	c.Sample(c35Case{"h264", []string{"nonIDR/100", "IDR/2000", "nonIDR/4"}, 1200, "each", false, []string{"single[nonIDR/100]", "fu-start[IDR 1198B]", "fu-cont+end[IDR 801B]", "single[nonIDR/4]"}})
 	c.Sample(c35Case{"h265", []string{"TRAIL_N/2000", "TRAIL_R/100", "IDR_W_RADL/100"}, 1200, "each", false, []string{"fu-start[TRAIL_N ...]", "fu-cont+end[TRAIL_N ...]", "single[TRAIL_R/100]", "single[IDR_W_RADL/100]"}})
+	c35FileConstructors(t, c)
 	c.Sample(c35Case{"h265", []string{"VPS/4", "PPS/4", "IDR_W_RADL/100"}, 100, "au", false, []string{"agg[VPS/4 PPS/4 ...]"}})
 }
